@@ -41,4 +41,30 @@ CHECKS = {
                 "in every reachable state the status for both writers and an unknown collection is compared with the real job objects. Content-Disposition: all names of <=3/<=4 symbols over 24 printable symbols.",
         "note": "quick: 6 events deep (cost 12), one render per writer; thorough: 8 events, two renders per writer, time-capped. Header-safety = ASCII token without control/space/;,\" plus RFC 5987 value decoding to the stripped name.",
     },
+    "C12": {
+        "engine": "input-enum", "category": "model_checking", "design_ref": "DESIGN.md §2 C12",
+        "technique": "exhaustive enumeration of title spellings per (site, namespace name) against a reference normal form, plus idempotence",
+        "text": SMALL_SCOPE + "site x namespace x every name/alias x case x separator x leading colon x surrounding whitespace/directional marks x remainder x remainder spelling x default namespace; "
+                "all spellings must give the one canonical (ns, partial, full); re-normalising the canonical name is the identity.",
+        "note": "quick: en/de/ja and default namespaces {0,10}; thorough: all 12 bundled sites, 5 default namespaces (64M splitname calls). Which capital a letter maps to (ß, ǆ) is not judged. Namespace names that are ambiguous within a site are skipped and counted.",
+    },
+    "C13": {
+        "engine": "input-enum", "category": "model_checking", "design_ref": "DESIGN.md §2 C13",
+        "technique": "exhaustive enumeration of small metabooks; round trip, fixed point, id invariance/sensitivity, all-pairs id injectivity by grouping",
+        "text": SMALL_SCOPE + "all metabooks with <=2 (quick) / <=3 (thorough) items over 24 articles + 14 chapters, x optional-field presence; 7 serialisation variants, 8 single-field mutations, both make_collection_id implementations (nserve, serve).",
+        "note": "field values from small fixed domains; equality is recursive _json() equality.",
+    },
+    "C14": {
+        "engine": "input-enum", "category": "model_checking", "design_ref": "DESIGN.md §2 C14",
+        "technique": "exhaustive enumeration of write histories through the real FsOutput -> zip -> make_wiki path, all lookup spellings; fs_escape injectivity over all short canonical titles",
+        "text": SMALL_SCOPE + "texts x titles x 4 write methods x all write orders of 3 records; redirects incl. chains; image titles in en/de x namespace aliases/case/underscore/percent spellings; 3.4k canonical titles for file-name injectivity.",
+        "note": "one known finding (text starting with FF + ' --page-- ') is reported as KNOWN-FINDING; texts containing the full record separator and %XX titles are excluded as the statement says.",
+    },
+    "C15": {
+        "engine": "input-enum", "category": "model_checking", "design_ref": "DESIGN.md §2 C15",
+        "technique": "exhaustive enumeration of member names against a lexical reference resolution, with a file-system snapshot diff of a private sandbox",
+        "text": SMALL_SCOPE + "every member name over 6 components x {/,\\} x relative/absolute up to 4 (quick) / 5 (thorough) components, as middle member of a 3-member archive, 4 destination spellings, "
+                "through nuwiki.extractall, and the short names also through nuwiki.Adapt(zipfile) and wiki.extract_wiki(multi-nuwiki).",
+        "note": "POSIX semantics; no symlinks in the destination; all hostile names resolve inside a 6-level-deep private sandbox so that a broken implementation cannot damage the machine.",
+    },
 }
